@@ -14,6 +14,7 @@ import Model.Macat
 import Model.Opt
 import Model.Core
 import Model.Wait
+import Model.Close
 import Generated.Facts
 import Driver.Machines
 open Model
@@ -200,6 +201,13 @@ def processLine (st : St) (line : String) : St × Option String :=
       if ok then (st, none) else
         ({ st with mismatches := st.mismatches + 1 },
           some s!"MISMATCH {st.lines} {lhs} expected={exp} observed={obs}")
+    else if tag == "cl.check" then
+      let what := args.headD ""
+      let al := Close.allowed what
+      let st := { st with counts := bump (bump st.counts tag) (tag ++ ":" ++ what ++ "=" ++ obs) }
+      if al.contains obs then (st, none) else
+        ({ st with mismatches := st.mismatches + 1 },
+          some s!"MISMATCH {st.lines} {lhs} expected={al} observed={obs}")
     else if tag == "w.run" then
       match checkWait args obs with
       | some (ok, exp, br) =>
